@@ -3,7 +3,7 @@ import JunoModel.C03.Model
 /-!
 Line-protocol driver for the C03 model (`lake build c03drv`).
 
-  cfg leaffix|sysprobefix <0|1>     which variant of the new backend is modelled (see `Cfg`)
+  cfg leaffix|sysprobefix|historderfix <0|1>     which variant of the new backend is modelled (see `Cfg`)
   univ a|k|c <hex>*                 universe of addresses / slots / class hashes for `dump`
   store <blockhash> <p1|p2> <diff>  diff in the token form of harness/cmd/c03/enc.go
   revert
@@ -63,6 +63,9 @@ def parseDiff : List String → Diff → Option Diff
     let h ← hexToNat? h
     let h2 ← hexToNat? h2
     parseDiff rest { d with declared1 := d.declared1 ++ [⟨c, h, h2⟩] }
+  | "x" :: c :: rest, d => do
+    let c ← hexToNat? c
+    parseDiff rest { d with extraClasses := d.extraClasses ++ [c] }
   | "m" :: c :: h :: rest, d => do
     let c ← hexToNat? c
     let h ← hexToNat? h
@@ -126,6 +129,10 @@ def step (s : DState) (line : String) : DState × String :=
   | ["cfg", "leaffix", b] =>
     if b == "0" then ({ s with cfg := { s.cfg with leafFix := false } }, "ok")
     else if b == "1" then ({ s with cfg := { s.cfg with leafFix := true } }, "ok")
+    else (s, "bad-op")
+  | ["cfg", "historderfix", b] =>
+    if b == "0" then ({ s with cfg := { s.cfg with histOrderFix := false } }, "ok")
+    else if b == "1" then ({ s with cfg := { s.cfg with histOrderFix := true } }, "ok")
     else (s, "bad-op")
   | ["cfg", "sysprobefix", b] =>
     if b == "0" then ({ s with cfg := { s.cfg with sysProbeFix := false } }, "ok")
